@@ -484,7 +484,7 @@ def _routing(col, rule="C08.R6"):
             if c == S.fcall("isinstance", row, ("glob", "str")):
                 by.setdefault("str", []).append(r.value)
             if S.contains(c, lambda t: t == ("attr", ("attr", S.fcall(("attr", ("glob", "np"), "array"), row), "dtype"), "kind")) is False and \
-                    c[:1] == ("cmp",) and c[1] == "is" and S.contains(c, lambda t: S.is_call_of(t, ("attr", ("glob", "np"), "dtype"))):
+                    c[:1] == ("cmp",) and c[1] == "is" and S.contains(c, lambda t: S.is_call_of(t, ("attr", ("glob", "np"), "dtype")) or _is_dtype_const(sx, t)):
                 by.setdefault("bool", []).append(r.value)
     ok = by.get("str") == [S.mcall(S.SELF, "_get_regexp_indices", row)] and \
         bool(by.get("bool")) and all(S.match(v, ("sub", S.fcall(("attr", ("glob", "np"), "where"), S.V("m")), ("const", "0"))) is not None for v in by["bool"])
@@ -492,6 +492,14 @@ def _routing(col, rule="C08.R6"):
     col.add(rule, "Table._get_row_indices#dispatch", ok and bool(single), sx.loc(sx.fn),
             "strings go to the regex selector, boolean masks to np.where, single names/tuples to the row resolver",
             str({k: [S.show(x)[:50] for x in v] for k, v in by.items()}))
+
+
+def _is_dtype_const(sx, t) -> bool:
+    """a module-level constant `X = np.dtype(..)` named in a condition is that dtype object"""
+    if t[:1] != ("glob",):
+        return False
+    cv = getattr(sx.cx.module, "consts", {}).get(t[1])
+    return isinstance(cv, ast.Call) and (A.dotted(cv.func) or "") in ("np.dtype", "numpy.dtype")
 
 
 def _name_spans(col, rule="C08.R7"):
